@@ -358,6 +358,38 @@ def _class_list(e: ast.AST) -> list[str] | None:
     return None
 
 
+class _CanonComp(ast.NodeTransformer):
+    """Comprehension variables renamed to _c0, _c1, .. in order of appearance (alpha-normal form of the bound names)."""
+
+    def __init__(self) -> None:
+        self.n = 0
+        self.m: dict[str, str] = {}
+
+    def _comp(self, node):
+        old = dict(self.m)
+        for g in node.generators:
+            g.iter = self.visit(g.iter)
+            for t in ast.walk(g.target):
+                if isinstance(t, ast.Name):
+                    self.m[t.id] = f"_c{self.n}"
+                    self.n += 1
+            g.target = self.visit(g.target)
+            g.ifs = [self.visit(i) for i in g.ifs]
+        if isinstance(node, ast.DictComp):
+            node.key, node.value = self.visit(node.key), self.visit(node.value)
+        else:
+            node.elt = self.visit(node.elt)
+        self.m = old
+        return node
+
+    visit_ListComp = visit_SetComp = visit_GeneratorExp = visit_DictComp = _comp
+
+    def visit_Name(self, n):
+        if n.id in self.m:
+            return ast.copy_location(ast.Name(id=self.m[n.id], ctx=n.ctx), n)
+        return n
+
+
 class SymInterp(PathInterp):
     """Each path carries the expressions (as normalised text over the entry values) bound to locals and self attributes, the
     branch decisions taken and the sequence of attribute stores / statement-level calls.  Locals are substituted away, so two
@@ -368,7 +400,7 @@ class SymInterp(PathInterp):
     def text(self, e: ast.AST, st: Sym) -> str:
         import copy as _copy
 
-        return ast.unparse(_SymSub(st).visit(_copy.deepcopy(e)))
+        return ast.unparse(_CanonComp().visit(_SymSub(st).visit(_copy.deepcopy(e))))
 
     def _walrus(self, e: ast.AST, st: Sym) -> Sym:
         for n in ast.walk(e):
